@@ -55,10 +55,10 @@ GETITEM_INT = dict(
                            "forall(lambda t: implies(0 <= t and t < i, items[t] == Out(self._getitem_fns[t], IDX)))",
                            "idx == IDX"]),
         1: dict(anchor="for i, fused_idxs in enumerate(self.fused_to_idxs)", index="e", havoc_types={"unpacked_items": TSeq(TOpt(VAL))},
-                invariant=["len(unpacked_items) == NI",
+                invariant=["len(unpacked_items) == NI", "g_fn_calls == M",
                            "forall(lambda p: implies(0 <= p and p < NI and Owner(p) < e, unpacked_items[p] == OWNVAL(p)))"]),
         2: dict(anchor="for j, fused_idx in enumerate(fused_idxs)", index="c", havoc_types={"unpacked_items": TSeq(TOpt(VAL))},
-                invariant=["len(unpacked_items) == NI",
+                invariant=["len(unpacked_items) == NI", "g_fn_calls == M",
                            "forall(lambda p: implies(0 <= p and p < NI and (Owner(p) < e or (Owner(p) == e and OwnerComp(p) < c)), "
                            "unpacked_items[p] == OWNVAL(p)))"]),
     },
